@@ -54,7 +54,19 @@ fn finish(mut resp: IppRequestResponse) -> Sent {
     }
 }
 
+impl ClientCfg {
+    /// nothing configured: the plain constructors `IppClient::new` / `AsyncIppClient::new` apply
+    pub fn is_default(&self) -> bool {
+        self.headers.is_empty() && self.basic.is_none() && self.timeout_ms.is_none() && self.ignore_tls.is_none() && self.ca.is_none()
+    }
+}
+
 pub fn blocking_client(uri: &str, cfg: &ClientCfg) -> IppClient {
+    if cfg.is_default() {
+        let c = IppClient::new(uri.parse().expect("uri"));
+        assert_eq!(c.uri().to_string(), uri.parse::<http::Uri>().unwrap().to_string(), "IppClient::uri() differs from the target given");
+        return c;
+    }
     let mut b = IppClient::builder(uri.parse().expect("uri"));
     for (k, v) in &cfg.headers {
         b = b.http_header(k, v);
@@ -75,6 +87,11 @@ pub fn blocking_client(uri: &str, cfg: &ClientCfg) -> IppClient {
 }
 
 pub fn async_client(uri: &str, cfg: &ClientCfg) -> AsyncIppClient {
+    if cfg.is_default() {
+        let c = AsyncIppClient::new(uri.parse().expect("uri"));
+        assert_eq!(c.uri().to_string(), uri.parse::<http::Uri>().unwrap().to_string(), "AsyncIppClient::uri() differs from the target given");
+        return c;
+    }
     let mut b = AsyncIppClient::builder(uri.parse().expect("uri"));
     for (k, v) in &cfg.headers {
         b = b.http_header(k, v);
